@@ -2,7 +2,7 @@ PROP = {
     'level': 'proof',
     'coq': ['Properties/C18.v'],
     'coq_gen': [],
-    'rule': ("five generator families; every proof of the implementation is compared byte for byte with the extracted model "
+    'rule': ("six generator families; every proof of the implementation is compared byte for byte with the extracted model "
              "(label walk, prune, Merkle-proof cell, serialiser) AND judged by oracles stated on the Go side. "
              "(1) dictionaries (key widths 8..256, 1..60 entries, shapes random / long common prefixes / runs / dense) built by an "
              "independent encoder with minimal or random label forms per edge x present keys (first, last, random; all in the thorough "
@@ -16,6 +16,14 @@ PROP = {
              "second prune set = nothing / an existing pruned branch / an ancestor of one / a sibling / random; (b) partially pruned "
              "dictionaries x keys whose path is kept, keys whose path is pruned, absent keys, alone and as a history; (c) trees with "
              "pruned branches of every level mask 1..7, library cells, Merkle proof/update cells, with consistent or arbitrary masks. "
+             "(6) CONCURRENT operations on ONE *boc.MerkleProver, in the guarded child [c18.conc]: 2..8 goroutines released together, "
+             "each repeating its own operation 120 (thorough: 300) times with its own cursor — ProveKeyInHashmap for its own key of a "
+             "6..35-entry dictionary (walking a private copy of the cells), some for absent keys, some cursor walks; and cursor walks "
+             "on arbitrary trees (ordinary or with exotic cells). Every round of every operation must return byte for byte what the "
+             "operation returns alone on a fresh prover (computed sequentially) and what the model says for it (the model of the "
+             "kind is schedule-free), and must satisfy the oracles below for ITS OWN pruned set / key; rounds that disagree are "
+             "reported as ('diverged ..), a hang or fatal error as 'timeout / 'crash. At least 4 OS threads are used even when the "
+             "run is confined to one CPU. "
              "Oracles per proof, computed from the source tree and the set of cells THIS operation pruned (level-0 hashes by "
              "boc.VerifLevelHash, not by pruneCells): single-root BOC whose root is a 280-bit Merkle-proof cell 03|hash_0|depth_0 of "
              "the source root; the body's level-0 hash/depth equal them; position by position the body is the source where exactly "
@@ -39,7 +47,12 @@ PROP = {
                     "the model because the model of the prover has no state but the root (the pruned set belongs to the cursor) — its "
                     "content is the correspondence run over one Go prover per history. C18_shared_pruned_set_refuted (Proofs/C18History.v) "
                     "shows the requirement is not vacuous: a prover that owns the pruned set and shares it between cursors gives a right "
-                    "first proof and a wrong second one."),
+                    "first proof and a wrong second one. C18_interleaving_independent extends history independence to interleavings of "
+                    "concurrent calls: CreateProof split into its two steps (attach the pruned tree to a Merkle-proof header cell; serialise "
+                    "that cell), any number of calls, any schedule — a call emits the proof of its own prune set, because the prover is "
+                    "read-only after construction and the header belongs to the call (immediate in the model, which has no prover state; "
+                    "the content is the c18.conc run). C18_shared_header_refuted: with one header cell owned by the prover the schedule "
+                    "Attach 0; Attach 1; Emit 0 returns call 1's proof to call 0 although every sequential schedule is right."),
     'assumptions': ["source trees in which pruning reaches a Merkle proof/update cell are refused by pruneCells with an error (documented "
                     "limitation of the library, modelled as Err, checked by the oracle: never a proof); such trees are outside the theorems",
                     "observation (not a violation of the statement): CreateProof always gives the Merkle-proof cell level mask 0; for a source "
@@ -52,6 +65,11 @@ PROP = {
                     "the caller resets the read cursor of the root cell between ProveKeyInHashmap calls on the same *boc.Cell "
                     "(root.ResetCounters(): the walk reads the label and the child references from the cell it is given and leaves its read "
                     "position behind); the harness does so",
+                    "concurrent scenarios are scheduling-dependent: a defect that needs an interleaving is found with high probability "
+                    "per run (several thousand overlapping proofs per quick run), not with certainty; the Coq statement about interleavings "
+                    "is about the two-step model of CreateProof, not about the Go memory model (no data-race detector is used, CGO is off)",
+                    "each goroutine walks its own copy of the dictionary cells: ProveKeyInHashmap moves the read position of the *boc.Cell "
+                    "tree it is given, so sharing that tree between goroutines is outside the API; the shared object is the prover",
                     "level-0 hashes used by the Go-side oracles come from newImmutableCell (boc.VerifLevelHash), which is checked against the "
                     "declarative representation hash by C02; the model recomputes all hashes independently"],
 }
@@ -72,6 +90,9 @@ META = {
              "*boc.MerkleProver of a dictionary (c18.multi) or of an arbitrary tree (several cursors), and sources that already "
              "contain exotic cells (bodies of earlier proofs, partially pruned dictionaries, pruned branches of masks 1..7, "
              "library and Merkle cells); Go-side oracles compare the proof body position by position with the source. "
+             "Concurrent use: K goroutines on ONE prover, each repeating its own operation, every result byte-identical to the "
+             "operation alone and to the model (c18.conc, guarded child); C18_interleaving_independent / C18_shared_header_refuted "
+             "state and delimit it for the two-step model of CreateProof. "
              "A defect was repaired in /repo: ProveKeyInHashmap walked into pruned branches of a partially pruned dictionary "
              "and returned a garbage value and a proof not revealing the key with a nil error; it now returns an error when "
              "the path reaches an exotic cell."),
